@@ -15,7 +15,7 @@ SPECIAL = ["k", "K", "K", "s", "S", "ſ", "ß", "ﬁ", "\x00", "\U0010ffff", "
 
 class GrammarGen:
     def __init__(self, rng: random.Random, alph=BASE_ALPH, specials=0.08, flags=0.15, excl=0.3,
-                 recursion=0.25, prose=0.04):
+                 recursion=0.25, prose=0.04, undef=0.0):
         self.rng = rng
         self.alph = alph
         self.p_special = specials
@@ -23,6 +23,7 @@ class GrammarGen:
         self.p_excl = excl
         self.p_rec = recursion
         self.p_prose = prose
+        self.p_undef = undef
 
     def ch(self):
         if self.rng.random() < self.p_special:
@@ -40,6 +41,8 @@ class GrammarGen:
             return ("range", a, b)
         if u < 0.65 + self.p_prose:
             return ("prose",)
+        if rng.random() < self.p_undef:
+            return ("ref", n)  # a rule object that never gets a definition
         # reference: forward (acyclic) always allowed; any rule when guarded
         if guarded and rng.random() < self.p_rec * 2:
             return ("ref", rng.randrange(0, n))
@@ -104,7 +107,7 @@ def build(P, grammar, tag=[0]):
     """Build the grammar through the public object API in a fresh Rule subclass."""
     tag[0] += 1
     cls = type(f"Gen{tag[0]}", (P.Rule,), {})
-    rules = [cls(name) for name, _, _ in grammar]
+    rules = [cls(name) for name, _, _ in grammar] + [cls("undefined-rule")]
 
     def mk(e):
         k = e[0]
@@ -177,6 +180,8 @@ def derive(rng, grammar, e, depth=0):
         except Dead:
             return ""
     if k == "ref":
+        if e[1] >= len(grammar):
+            raise Dead
         return derive(rng, grammar, grammar[e[1]][1], depth + 1)
     raise ValueError(e)
 
